@@ -104,6 +104,9 @@ func (bs *baseServer) Construct(opt any) {
 				buf, _ = types.NewBytesBufferReader(ip)
 			}
 			bs.opts.SetInitialPacket(buf)
+			// the caller's reader has been consumed: another server built from
+			// the same options must find its content, not an empty reader
+			opts.SetInitialPacket(buf)
 		}
 	}
 
